@@ -69,14 +69,15 @@ type hev struct {
 }
 
 type client struct {
-	name     string
-	id       int64
-	key      any
-	cancel   context.CancelFunc
-	returned chan struct{}
-	pending  *hev // the write the handler is blocked in
-	exitGate chan struct{}
-	got      map[int]bool
+	name      string
+	id        int64
+	key       any
+	cancel    context.CancelFunc
+	returned  chan struct{}
+	pending   *hev // the write the handler is blocked in
+	exitGate  chan struct{}
+	got       map[int]bool
+	cancelled bool
 }
 
 type world struct {
@@ -271,6 +272,7 @@ func (w *world) step(l label) *mismatch {
 		c.pending = nil
 		return w.expectExit(c, "after a failed write")
 	case "cancel":
+		c.cancelled = true
 		c.cancel()
 	case "exitctx":
 		return w.expectExit(c, "after its context was cancelled")
@@ -326,8 +328,32 @@ func (w *world) step(l label) *mismatch {
 			return &mismatch{"", fmt.Sprintf("Send(%s) started deliveries for [%s], the registry holds [%s]", bdata(l.B), strings.Join(real, ","), strings.Join(want, ","))}
 		}
 	case "run":
-		e, ok := w.expect(func(e *hev) bool { return e.ev == "gate" && e.data == bdata(l.B) && w.byKey[e.key] == c }, expectTimeout)
+		// a delivery goroutine reaches its send within microseconds of Send; the spec says Run(c,b) is enabled
+		// whatever the other clients do
+		e, ok := w.expect(func(e *hev) bool { return e.ev == "gate" && e.data == bdata(l.B) && w.byKey[e.key] == c }, expectTimeout/3)
 		if !ok {
+			// is it waiting behind the delivery of the same broadcast to another client?
+			for i := range w.stash {
+				o := w.byKey[w.stash[i].key]
+				if w.stash[i].ev != "gate" || w.stash[i].data != bdata(l.B) || o == nil || o == c {
+					continue
+				}
+				state := "ready in its select loop"
+				switch {
+				case o.pending != nil && !o.cancelled:
+					state = "stalled in a write (connected, context not cancelled)"
+				case o.pending != nil:
+					state = "stalled in a write after its browser went away"
+				case o.exitGate != nil:
+					state = "on its way out (not yet unregistered)"
+				}
+				what := fmt.Sprintf("the delivery of %s to %s has not started: it waits behind the delivery of the same broadcast to %s, which is %s; the spec's Run(%s,%s) is enabled independently of other clients",
+					bdata(l.B), l.C, o.name, state, l.C, bdata(l.B))
+				if o.pending != nil || o.exitGate != nil {
+					return &mismatch{"Delivery.BlockedByAnotherClient", what}
+				}
+				return &mismatch{"", what}
+			}
 			return &mismatch{"", fmt.Sprintf("delivery goroutine (%s,%s) never reached its send", l.C, bdata(l.B))}
 		}
 		close(e.gate)
